@@ -646,12 +646,12 @@ macro_rules! o13_1 { ($name:ident, $rate:expr, $rtt:expr) => {
     #[kani::unwind(3)]
     fn $name() { credit_refill($rate, $rtt); }
 } }
-//@h props=C13 tier=quick timeout=900 role=credit-refill
+//@h props=C13 tier=quick timeout=300 role=credit-refill
 //@fn HalfConnection::fill_flush_alloc, SendRateComp::{send_rate, rtt_s}
 //@bound allowed rate 100000 B/s, RTT estimate 50 ms (concrete: float multiplication by constants); elapsed time since the last step ANY <= 2^32 ms; previous credit ANY in [-4416, 2^40]
 //@assume Instant values built from a fixed base plus a Duration (Instant::now is not called by fill_flush_alloc itself)
 o13_1!(o13_1_credit_refill_100k_50ms, 100_000, Some(50));
-//@h props=C13 tier=quick timeout=900 role=credit-refill
+//@h props=C13 tier=quick timeout=300 role=credit-refill
 //@fn HalfConnection::fill_flush_alloc
 //@bound allowed rate 1472 B/s (the smallest ceiling of the property), RTT estimate 1000 ms; elapsed time and previous credit as above
 //@assume as o13_1_credit_refill_100k_50ms
@@ -661,8 +661,36 @@ o13_1!(o13_1_credit_refill_1472_1s, 1472, Some(1000));
 //@bound allowed rate 2^32-1 B/s, RTT estimate 10 s; elapsed time and previous credit as above
 //@assume as o13_1_credit_refill_100k_50ms
 o13_1!(o13_1_credit_refill_max_rate_10s, u32::MAX, Some(10_000));
-//@h props=C13 tier=quick timeout=900 role=credit-refill
+//@h props=C13 tier=quick timeout=300 role=credit-refill
 //@fn HalfConnection::fill_flush_alloc
 //@bound allowed rate 100000 B/s, NO RTT estimate yet (the credit ceiling is then 0: at most one frame per flush); elapsed time and previous credit as above
 //@assume as o13_1_credit_refill_100k_50ms
 o13_1!(o13_1_credit_refill_no_rtt_estimate, 100_000, None);
+
+fn credit_refill_concrete(rate: u32, rtt_ms: Option<u64>, dt_ms: u64, c0: isize) -> isize {
+    let mut hc = small(0, 0, 0, 0, None);
+    hc.send_rate_comp.verif_set_rate_and_rtt(rate, rtt_ms.map(|m| m as f64 / 1000.0));
+    let t_last = crate::verif_env::fake_instant();
+    hc.time_last_flushed = Some(t_last);
+    hc.flush_alloc = c0;
+    hc.fill_flush_alloc(t_last + std::time::Duration::from_millis(dt_ms));
+    let c1 = hc.flush_alloc;
+    std::mem::forget(hc);
+    c1
+}
+//@h props=C13 tier=quick timeout=600 role=credit-refill-points
+//@fn HalfConnection::fill_flush_alloc
+//@bound concrete points (rate, RTT, elapsed time, previous credit): a 3 s pause at 100 kB/s with a 50 ms RTT, a 20 ms step, an overdrawn credit, no RTT estimate - evaluated by constant folding (a cheap companion of the symbolic o13_1 obligations, which the solver may not refute quickly when the rule is broken)
+#[kani::proof]
+#[kani::unwind(3)]
+fn o13_1_credit_refill_points() {
+    // a long pause does not bank credit: capped at rate x RTT = 5000 bytes
+    assert!(credit_refill_concrete(100_000, Some(50), 3000, 0) == 5000, "[C13] after a pause the credit is capped at (allowed rate x RTT estimate)");
+    assert!(credit_refill_concrete(100_000, Some(50), 3000, 4000) == 5000, "[C13]");
+    // an ordinary step adds rate x dt
+    assert!(credit_refill_concrete(100_000, Some(50), 20, 1000) == 3000, "[C13] a step adds (allowed rate x elapsed time)");
+    // an overdrawn credit is paid back first
+    assert!(credit_refill_concrete(100_000, Some(50), 20, -1472) == 528, "[C13] an overdraft is paid back before anything new is allowed");
+    // no RTT estimate yet: no positive credit at all (one frame per flush)
+    assert!(credit_refill_concrete(100_000, None, 1000, -100) == 0 && credit_refill_concrete(100_000, None, 1000, 0) == 0, "[C13]");
+}
